@@ -95,23 +95,31 @@ def job_injector(args):
                                      signal="phase %d %s" % (k // per, (M2S + ["slave.rddata", "slave.rddata_valid", "ext.rddata", "ext.rddata_valid", "pi.rddata"])[k % per]),
                                      impl=a[k], model=b[k], input=lines[i][:200]))
             break
-        # transparency / isolation judged on the implementation: inputs of iteration i-1 produced obs[i]
-        if i >= 1:
-            inp = list(map(int, lines[i].split()))
-            sel, ext = inp[0], inp[4]
-            o = list(map(int, obs[i].split()))
-            for p in range(nph):
-                base = 5 + p * (12 + 14 + 14 + 2)
-                slave = inp[base + 12: base + 26]; rd = inp[base + 40: base + 42]
-                m = o[p * per: p * per + 14]; srd = o[p * per + 14: p * per + 16]
-                if sel and not ext:
-                    want = list(slave)
-                    if clam:
-                        want[3] = slave[3] | (slave[3] << nranks)
-                    if m != want or srd != rd:
-                        r.violations.append(dict(signature="c18-hw-not-transparent", what="injector (nranks=%d clam=%d): hardware mode, phase %d: PHY side sees %s for controller %s; read data back %s for %s"
-                                                 % (nranks, clam, p, m, want, srd, rd), replay=dict(cycle=i, line=lines[i][:300])))
-                        return r
+    # transparency / isolation judged on the implementation alone (whatever the model says): inputs of iteration i-1 produced obs[i]
+    for i in range(1, len(obs)):
+        inp = list(map(int, lines[i].split()))
+        sel, ext = inp[0], inp[4]
+        o = list(map(int, obs[i].split()))
+        r.evaluations += 1
+        for p in range(nph):
+            base = 5 + p * (12 + 14 + 14 + 2)
+            slave = inp[base + 12: base + 26]; rd = inp[base + 40: base + 42]
+            m = o[p * per: p * per + 14]; srd = o[p * per + 14: p * per + 16]
+            want = list(slave)
+            if clam:
+                want[3] = slave[3] | (slave[3] << nranks)
+            if sel and not ext:
+                if m != want or srd != rd:
+                    r.violations.append(dict(signature="c18-hw-not-transparent", what="injector (nranks=%d clam=%d): hardware mode, phase %d: PHY side sees %s for controller %s; read data back %s for %s"
+                                             % (nranks, clam, p, m, want, srd, rd), replay=dict(cycle=i, line=lines[i][:300])))
+                    return r
+            elif not sel:
+                # software mode: the controller's (fresh random) command, address and data must not appear at the PHY, nor the PHY's
+                # read data at the controller
+                if m == want or (rd[1] and srd == rd):
+                    r.violations.append(dict(signature="c18-sw-not-isolated", what="injector (nranks=%d clam=%d): software mode, phase %d: the controller's DFI %s reaches the PHY / read data %s reaches the controller"
+                                             % (nranks, clam, p, want, srd), replay=dict(cycle=i, line=lines[i][:300])))
+                    return r
     r.coverage["injector_runs"] = 1
     return r
 
